@@ -337,6 +337,10 @@ class MustAnalysis:
         """Tokens forgotten at the start of every iteration of `loop`."""
         return ()
 
+    def loop_iter_gen(self, loop):
+        """Tokens that hold at the start of every iteration of `loop`."""
+        return ()
+
     def on_loop_body_exit(self, loop, states_in, states_out):
         """Called with the states at loop-body entry and normal exit of one
         abstract iteration (after fixpoint)."""
@@ -549,8 +553,9 @@ class MustAnalysis:
             elif header is not None:
                 cur = self._apply(s, cur, pseudo=header)
             lk = frozenset(self.loop_iter_kill(s))
-            if lk:
-                cur = merge([St(x.facts, x.tokens - lk) for x in cur])
+            lg = frozenset(self.loop_iter_gen(s))
+            if lk or lg:
+                cur = merge([St(x.facts, (x.tokens - lk) | lg) for x in cur])
             body_in = cur
             body_out = self.block(s.body, cur)
             back = merge(body_out + ctx["continues"])
